@@ -77,6 +77,27 @@ CHECKS = {
   "Every operation sequence up to depth 5/6 (unidirectional, 11-operation alphabet) and 4/5 (bidirectional, 19 operations), plus random sequences of length 6..40, is run on a fresh connected pair and on a small reference model; return value classes, Finished/Stopped event multisets, stray events and the open-stream count are compared after every operation. The honest-world application oracles (second Connected, accept() of local ids, ...) add in-vivo coverage.",
   "exhaustive only up to the stated depth and alphabet; one stream per sequence; plaintext lane",
   "DESIGN.md section 4 C11"),
+ "C10": ("exploration",
+  "runtime monitoring: round-trip and totality oracles over quinn's real codecs (hooks H3) against an independent wire codec, with exhaustive sub-spaces; the same sweeps repeated under AddressSanitizer and Miri",
+  "encode->decode->compare for varints (all 2^30 four-byte values, all 1/2-byte values), packet numbers (window sweeps around 2^7/2^15/2^23/2^31), every frame type with boundary-valued fields, headers (type x CID length x pn length x token length), transport parameters, tokens and reset tokens; decoders fed arbitrary and mutated bytes must return an error or a value that re-encodes consistently, never panic, never read out of bounds (ASan, Miri lanes). Held on 5.6e7 inputs quick / 5.5e9 thorough.",
+  "the independent codec (harness/src/wire.rs) is the reference; Miri volume is small (interpreter speed); observations about lenient transport-parameter parsing are printed as NOTE lines, not judged",
+  "DESIGN.md section 4 C10; codecharness/NOTES.md"),
+ "C18": ("exploration",
+  "runtime monitoring: deterministic executor with a seeded scheduler over quinn's async API (virtual runtime and in-memory network), cancellation at every await point, lost-wakeup probes, waker/registration census through hook H4, teardown and data-integrity oracles; real tokio scheduler lane under ThreadSanitizer and AddressSanitizer",
+  "Programs of concurrent async operations (open/accept/read/write/finish/reset/stop/stopped/received_reset/datagrams/close, 0-RTT) run under many seeded interleavings with futures dropped at arbitrary poll points; after every quiescent point a spurious poll of each pending future must still be pending (no lost wakeup), the connection's waker tables must hold exactly the live registrations (census), and teardown must wake everything; the same programs on multi-threaded tokio under TSan/ASan report no race or memory error.",
+  "deterministic lanes cannot preempt inside a poll (one equivalent mutant documented); TSan/ASan lanes run in thorough only",
+  "DESIGN.md section 4 C18; aioharness/NOTES.md"),
+ "C19": ("exploration",
+  "runtime monitoring: byte-for-byte datagram comparison over real loopback sockets through quinn-udp (GSO/GRO/ECN/pktinfo grid), cmsg encode/decode model via hook H5, LD_PRELOAD fault shim for degraded kernels, AddressSanitizer / valgrind / Miri lanes, strace-free syscall accounting",
+  "Every payload length, segment size x segment count, ECN codepoint, address family and source-address combination is sent through UdpSocketState::send/recv on loopback and compared with what was handed in (contents, boundaries, ECN, destination address); control-message encoders and decoders are checked against an independent model over exact-size buffers (out-of-bounds = ASan/Miri report); eight fault modes (EIO/EINVAL on GSO, ENOSYS recvmmsg, unsupported cmsgs ...) must degrade without losing or corrupting datagrams.",
+  "loopback only (no real NIC offload); five recorded known findings (GRO batches lose ECN, GSO fallback drops the triggering transmit, ECN off after EIO fallback, cmsg aliasing UB under Stacked/Tree Borrows, stale socket error)",
+  "DESIGN.md section 4 C19; udpharness/NOTES.md"),
+}
+# id -> (quick, thorough, replay template, engine)
+CMDS = {
+ "C10": ("./run_c10 quick", "./run_c10 thorough", "./codecharness/target/fast/qvcodec check C10 --replay {path}", "qvcodec"),
+ "C18": ("./run_c18 quick", "./run_c18 thorough", "./aioharness/target/fast/qvaio check C18 --replay {path}", "qvaio"),
+ "C19": ("./run_c19 quick", "./run_c19 thorough", "./udpharness/target/fast/qvudp check C19 --replay {path}", "qvudp"),
 }
 NOT_YET = "check not built yet (work in progress; see DESIGN.md section 4)"
 
@@ -92,7 +113,10 @@ m = {
   "add_only": True,
  },
  "engines": [
-  {"name": "qv", "path": "harness", "serves_properties": sorted(CHECKS), "kind_free_text": "Rust harness: virtual-time simulated QUIC worlds over quinn-proto's sans-IO API with fault-injecting network, null and rustls crypto lanes, independent wire codec, online monitors and offline history checkers"},
+  {"name": "qvcodec", "path": "codecharness", "serves_properties": ["C10"], "kind_free_text": "Rust harness over quinn-proto's codecs (hooks H3): exhaustive/random round-trip and totality sweeps; fast, ASan and Miri lanes"},
+  {"name": "qvaio", "path": "aioharness", "serves_properties": ["C18"], "kind_free_text": "Rust harness over the quinn async API: deterministic executor with seeded scheduler, virtual runtime/network, census hook H4; real tokio lane under TSan/ASan"},
+  {"name": "qvudp", "path": "udpharness", "serves_properties": ["C19"], "kind_free_text": "Rust harness over quinn-udp on real loopback sockets with an LD_PRELOAD fault shim (shims/faultudp.c), cmsg model via hook H5; ASan, valgrind and Miri lanes"},
+  {"name": "qv", "path": "harness", "serves_properties": sorted(k for k in CHECKS if k not in CMDS), "kind_free_text": "Rust harness: virtual-time simulated QUIC worlds over quinn-proto's sans-IO API with fault-injecting network, null and rustls crypto lanes, independent wire codec, online monitors and offline history checkers"},
  ],
  "checks": [],
  "not_applicable": [],
@@ -102,13 +126,14 @@ for p in props:
     pid = p["id"]
     if pid in CHECKS:
         cat, tech, text, note, ref = CHECKS[pid]
+        q, th, rp, eng = CMDS.get(pid, (f"./run {pid} quick", f"./run {pid} thorough", f"./harness/target/fast/qv check {pid} --replay {{path}}", "qv"))
         m["checks"].append({
          "property_id": pid,
-         "quick_cmd": f"./run {pid} quick",
-         "thorough_cmd": f"./run {pid} thorough",
+         "quick_cmd": q,
+         "thorough_cmd": th,
          "evidence_file": f"/verif/evidence/{pid}.json",
-         "replay_cmd_template": f"./harness/target/fast/qv check {pid} --replay {{path}}",
-         "engine": "qv",
+         "replay_cmd_template": rp,
+         "engine": eng,
          "level_claimed": {"category": cat, "text": text, "design_ref": ref},
          "level_note": note,
          "technique": tech,
